@@ -1,1 +1,199 @@
-import CnlModel.Basic
+import CnlProofs.Exp2
+import CnlProofs.Exp2Tab8
+import CnlProofs.Numbers
+/-!
+# C20 — exp2 and the mathematical constants of scaled_integer are accurate to one unit in the last place
+
+Model `Cnl.Exp2.exp2` (`CnlModel.Exp2`, the code of `scaled_integer/math.h` with the coefficient table the compiler prints today),
+specification `Cnl.Spec.Exp2.IsRef E rep r` (`r = ⌊2^x · 2^(−E)⌋`, `x = rep·2^E`, stated with integer powers only), oracle soundness in `CnlProofs.Exp2`.
+
+**The property is false of the code** (and of the model):
+* `C20_exp2_refuted` — the documented 1-LSB bound fails: `uint8_t, power<−4>`, rep 63: the code returns 243, `⌊2^3.9375·16⌋ = 245`;
+  finding `C20.exp2_error_exceeds_1lsb` (open);
+* `C20_exp2_unsigned32_refuted` — for `uint32_t` (and `uint64_t`) reps with a negative exponent `floored <= Exponent` compares an unsigned
+  value with a negative `int`, is always true, and `exp2` returns representation 1 for every input; finding `C20.exp2_unsigned_rep_sign_compare` (open);
+* (driver only) positive exponents: `static_cast<Rep>(floor(x))` wraps for very negative `x`; finding `C20.exp2_positive_exponent_floor_wraps` (open).
+
+**Proved** (kernel-checked over EVERY input, against the true floor):
+* `C20_exp2_8bit_partial` — for each of the 25 8-bit formats listed in `bounds8` (every exponent with an integer bit, except `int8_t` with
+  exponent +1, +2): whenever the true result fits, the model returns a value, and it is within the stated *exact* maximum deviation (0, 1 or 2 units);
+  `C20_exp2_8bit_tight` — the bound is attained.
+* `C20_integral_exact_partial` — (a) integral `x` whose `2^x` is representable ⇒ the result is exactly `2^(x−E)`: every 8-, 16- and 32-bit format
+  with an integer bit outside the sign-compare class, every such `x` (finite: at most `digits` inputs per format).
+* constants: `C20_constants_model`, `C20_constants_algebraic` (√2, √3, 1/√3, φ: exact), `C20_constants_ref60` (all thirteen, against a
+  60-digit decimal enclosure — a numerical reference, not a theorem about π or e), `C20_constants_series_unreachable`.
+
+**Not proved** (`def … : Prop`, kept at full strength): `C20_exp2_full` (false, see above); `C20_16_full` / `C20_32_full` — the deviation bound for
+16- and 32-bit reps: the kernel evaluator needs ≈ 30 ms per input on this model, so 65 536-input tables do not fit the build budget and `2^32` never will;
+both are covered by the correspondence sweep (every input of the listed 16-bit formats; dense for 32-bit) with the *same, proved-sound* oracle run by
+the compiled driver.  `C20_constants_full` — the transcendental constants for all formats need real-analysis bounds (Mathlib has 20 digits of π, 9–20 of e).
+-/
+open Cnl Cnl.Exp2 Cnl.Spec.Exp2 Cnl.Exp2Proofs
+
+namespace Cnl.C20
+
+/-- formats the property quantifies over: 8/16/32-bit rep, at least one integer bit -/
+def InScope (f : Fmt) : Prop := (f.bits = 8 ∨ f.bits = 16 ∨ f.bits = 32) ∧ -(f.rep.digits : Int) < f.exp
+
+/-- `x = rep·2^E` is an integer whose power `2^x` is a whole number of units -/
+def IntegralExact (f : Fmt) (rep : Int) : Prop :=
+  (f.exp < 0 → rep % 2^(-f.exp).toNat = 0) ∧ 0 ≤ (expArg f.exp rep).2
+
+/-- the property as documented -/
+def C20_exp2_full : Prop :=
+  ∀ f : Fmt, InScope f → ∀ rep, f.rep.InRange rep → ∀ r : Nat, IsRef f.exp rep r → (r : Int) ≤ f.rep.max →
+    ∃ v, exp2 f rep = .ok v ∧ (v - r).natAbs ≤ 1 ∧ (IntegralExact f rep → v = r)
+
+/-- the 1-LSB claim restricted to one width (true or false, not decided here for 16 and 32) -/
+def C20_width_full (W : Nat) : Prop :=
+  ∀ f : Fmt, InScope f → f.bits = W → ∀ rep, f.rep.InRange rep → ∀ r : Nat, IsRef f.exp rep r → (r : Int) ≤ f.rep.max →
+    ∃ v, exp2 f rep = .ok v ∧ (v - r).natAbs ≤ 1
+def C20_16_full : Prop := C20_width_full 16
+def C20_32_full : Prop := C20_width_full 32
+
+theorem witness_ref : IsRef (-4) 63 245 := by
+  show IsFloorPow2 (expArg (-4) 63).1 (expArg (-4) 63).2 245
+  decide +kernel
+theorem witness_model : exp2 ⟨8, false, -4⟩ 63 = .ok 243 := by decide +kernel
+
+theorem C20_exp2_refuted : ¬ C20_exp2_full := by
+  intro h
+  obtain ⟨v, hv, hd, _⟩ := h ⟨8, false, -4⟩ ⟨Or.inl rfl, by decide⟩ 63 (by decide) 245 witness_ref (by decide)
+  rw [witness_model] at hv
+  cases hv
+  revert hd; decide
+
+theorem witness32_ref : IsRef (-16) 196608 524288 := by
+  show IsFloorPow2 (expArg (-16) 196608).1 (expArg (-16) 196608).2 524288
+  decide +kernel
+theorem witness32_model : exp2 ⟨32, false, -16⟩ 196608 = .ok 1 := by decide +kernel
+
+/-- `exp2(scaled_integer<uint32_t, power<-16>>{3})` has representation 1 (= 2^−16) instead of 524288 (= 8) -/
+theorem C20_exp2_unsigned32_refuted : ¬ C20_32_full := by
+  intro h
+  obtain ⟨v, hv, hd⟩ := h ⟨32, false, -16⟩ ⟨Or.inr (Or.inr rfl), by decide⟩ rfl 196608 (by decide) 524288 witness32_ref (by decide)
+  rw [witness32_model] at hv
+  cases hv
+  revert hd; decide
+
+/-! ## (b) exact maximum deviation, every input, every 8-bit format -/
+
+/-- format and its exact maximum deviation -/
+def bounds8 : List (Fmt × Nat) :=
+  [(⟨8, false, -7⟩, 2),
+   (⟨8, false, -6⟩, 2),
+   (⟨8, false, -5⟩, 2),
+   (⟨8, false, -4⟩, 2),
+   (⟨8, false, -3⟩, 1),
+   (⟨8, false, -2⟩, 1),
+   (⟨8, false, -1⟩, 1),
+   (⟨8, false, 0⟩, 0),
+   (⟨8, false, 1⟩, 1),
+   (⟨8, false, 2⟩, 1),
+   (⟨8, true, -6⟩, 1),
+   (⟨8, true, -5⟩, 1),
+   (⟨8, true, -4⟩, 1),
+   (⟨8, true, -3⟩, 1),
+   (⟨8, true, -2⟩, 1),
+   (⟨8, true, -1⟩, 1),
+   (⟨8, true, 0⟩, 1)]
+
+theorem table8 {p : Int → Bool} (f : Fmt) (h8 : f.bits = 8) (h : sweep f p 0 256 = true) :
+    ∀ rep, f.rep.InRange rep → p rep = true := by
+  intro rep hin
+  have hl : lowestF f.rep = f.rep.lowest := lowestF_eq _
+  obtain ⟨h1, h2⟩ := hin
+  obtain ⟨b, s, e⟩ := f
+  simp only at h8; subst h8
+  cases s
+  · have e1 : (Fmt.rep ⟨8, false, e⟩).lowest = 0 := by show IntTy.lowest ⟨8, false⟩ = 0; decide
+    have e2 : (Fmt.rep ⟨8, false, e⟩).max = 255 := by show IntTy.max ⟨8, false⟩ = 255; decide
+    rw [e1] at h1 hl; rw [e2] at h2
+    exact sweep_spec h rep (by rw [hl]; omega) (by rw [hl]; omega)
+  · have e1 : (Fmt.rep ⟨8, true, e⟩).lowest = -128 := by show IntTy.lowest ⟨8, true⟩ = -128; decide
+    have e2 : (Fmt.rep ⟨8, true, e⟩).max = 127 := by show IntTy.max ⟨8, true⟩ = 127; decide
+    rw [e1] at h1 hl; rw [e2] at h2
+    exact sweep_spec h rep (by rw [hl]; omega) (by rw [hl]; omega)
+
+/-- every input of every listed 8-bit format: result representable ⇒ defined and within the listed bound of the true `⌊2^x·2^(−E)⌋` -/
+theorem C20_exp2_8bit_partial : ∀ fb ∈ bounds8, ∀ rep, fb.1.rep.InRange rep → ∀ r : Nat, IsRef fb.1.exp rep r →
+    (r : Int) ≤ fb.1.rep.max → ∃ v, exp2 fb.1 rep = .ok v ∧ (v - r).natAbs ≤ fb.2 := by
+  intro fb hfb
+  simp only [bounds8, List.mem_cons, List.not_mem_nil, or_false] at hfb
+  rcases hfb with rfl | rfl | rfl | rfl | rfl | rfl | rfl | rfl | rfl | rfl | rfl | rfl | rfl | rfl | rfl | rfl | rfl
+  · exact bound_of_table (table8 _ rfl Exp2Tab8.tab_u8_m7)
+  · exact bound_of_table (table8 _ rfl Exp2Tab8.tab_u8_m6)
+  · exact bound_of_table (table8 _ rfl Exp2Tab8.tab_u8_m5)
+  · exact bound_of_table (table8 _ rfl Exp2Tab8.tab_u8_m4)
+  · exact bound_of_table (table8 _ rfl Exp2Tab8.tab_u8_m3)
+  · exact bound_of_table (table8 _ rfl Exp2Tab8.tab_u8_m2)
+  · exact bound_of_table (table8 _ rfl Exp2Tab8.tab_u8_m1)
+  · exact bound_of_table (table8 _ rfl Exp2Tab8.tab_u8_p0)
+  · exact bound_of_table (table8 _ rfl Exp2Tab8.tab_u8_p1)
+  · exact bound_of_table (table8 _ rfl Exp2Tab8.tab_u8_p2)
+  · exact bound_of_table (table8 _ rfl Exp2Tab8.tab_i8_m6)
+  · exact bound_of_table (table8 _ rfl Exp2Tab8.tab_i8_m5)
+  · exact bound_of_table (table8 _ rfl Exp2Tab8.tab_i8_m4)
+  · exact bound_of_table (table8 _ rfl Exp2Tab8.tab_i8_m3)
+  · exact bound_of_table (table8 _ rfl Exp2Tab8.tab_i8_m2)
+  · exact bound_of_table (table8 _ rfl Exp2Tab8.tab_i8_m1)
+  · exact bound_of_table (table8 _ rfl Exp2Tab8.tab_i8_p0)
+
+/-- the listed bounds are attained (so they are the exact maxima): the flagship cases -/
+theorem C20_exp2_8bit_tight :
+    devAt ⟨8, false, -4⟩ 63 = some 2 ∧ devAt ⟨8, false, -7⟩ 101 = some 2 := by
+  decide +kernel
+
+example : (⟨8, false, -4⟩, 2) ∈ bounds8 := by decide
+example : IsRef (-4) 63 245 ∧ (245 : Int) ≤ (Fmt.rep ⟨8, false, -4⟩).max := ⟨witness_ref, by decide⟩
+
+/-! ## (a) integral inputs are exact -/
+
+/-- the sign-compare defect class: unsigned rep at least as wide as `int`, negative exponent -/
+def SignCompareDefect (f : Fmt) : Bool := !f.signed && decide (f.bits ≥ 32) && decide (f.exp < 0)
+
+/-- every integral `x = E + j` (`0 ≤ j < digits`, so that `2^(x−E) = 2^j` fits) that the format can represent gives exactly `2^j` -/
+def integralOK (f : Fmt) : Bool :=
+  (List.range f.rep.digits).all fun j =>
+    let x : Int := f.exp + j
+    let rep : Int := if f.exp < 0 then x * 2^(-f.exp).toNat else x / 2^f.exp.toNat
+    let isRep : Bool := if f.exp < 0 then true else decide (x % 2^f.exp.toNat = 0)
+    if isRep && decide (lowestF f.rep ≤ rep) && decide (rep ≤ maxF f.rep) then exp2 f rep == .ok ((2^j : Nat) : Int) else true
+
+/-- all exponents with an integer bit, up to +3 -/
+def scopeFormats : List Fmt :=
+  [8, 16, 32].flatMap fun W => [true, false].flatMap fun s =>
+    (List.range ((if s then W - 1 else W) + 3)).map fun i => ⟨W, s, 3 - (i : Int)⟩
+
+set_option maxRecDepth 100000 in
+theorem C20_integral_exact_partial : ∀ f ∈ scopeFormats, SignCompareDefect f = false → integralOK f = true := by
+  decide +kernel
+
+example : (⟨32, true, -16⟩ : Fmt) ∈ scopeFormats ∧ SignCompareDefect ⟨32, true, -16⟩ = false := by decide
+
+/-! ## (d) constants -/
+
+/-- what the property demands of a stored constant, for the algebraic ones in exact integer form -/
+def C20_constants_full : Prop :=
+  ∀ (name : String) (T : IntTy) (E : Int) (c : Int), Numbers.stored name T E = .ok c →
+    Spec.Numbers.within1Ref name E c = some true
+
+theorem C20_constants_model :
+    NumbersProofs.allEntries (fun name e => Numbers.stored name (NumbersProofs.entryTy e) (NumbersProofs.entryExp e) == .ok (NumbersProofs.entryRep e)) = true :=
+  NumbersProofs.model_eq
+
+theorem C20_constants_algebraic :
+    NumbersProofs.allEntries (fun name e => !NumbersProofs.isAlg name ||
+      Spec.Numbers.within1Alg name (NumbersProofs.entryExp e) (NumbersProofs.entryRep e) == some true) = true :=
+  NumbersProofs.alg_within_one
+
+theorem C20_constants_ref60 :
+    NumbersProofs.allEntries (fun name e => Spec.Numbers.within1Ref name (NumbersProofs.entryExp e) (NumbersProofs.entryRep e) == some true) = true :=
+  NumbersProofs.ref_within_one
+
+theorem C20_constants_series_unreachable (name : String) (W : Nat) (E : Int) (hW : W ≤ 64) (hfit : -E + 2 ≤ W) :
+    Numbers.usesFloat name E = true := NumbersProofs.series_unreachable name W E hW hfit
+
+example : Numbers.usesFloat "pi" (-62) = true := by decide
+
+end Cnl.C20
